@@ -228,34 +228,241 @@ Section GaussStep.
   Qed.
 End GaussStep.
 
-(* ---- BinaryCLT.em_step: every row of every table sums to one *)
+Lemma div_le1 a b : 0 < b -> a <= b -> a / b <= 1.
+Proof. q_of_qc. intros Hb Hab. apply Qle_shift_div_r; [exact Hb|]. lra. Qed.
+Lemma div_mul a b : b <> 0 -> (a / b) * b = a.
+Proof. intros. field. assumption. Qed.
+Lemma sum_map_add {A} (f g : A -> Qc) l : qsum (map (fun x => f x + g x) l) = qsum (map f l) + qsum (map g l).
+Proof. induction l as [|x l IH]; cbn; [ring | rewrite IH; ring]. Qed.
+Lemma sum_map_zero {A} (l : list A) : qsum (map (fun _ => 0) l) = 0.
+Proof. induction l; cbn; [reflexivity | rewrite IHl; ring]. Qed.
+
+(* ---- Categorical.em_step *)
+Section CatStep.
+  Variables (alpha eta : Qc) (tofz : Z -> Qc).
+  Hypothesis Ha : 0 < alpha.
+  Hypotheses (H0 : 0 < eta) (H1 : eta < 1).
+  Hypotheses (Z0 : tofz 0%Z = 0) (ZS : forall n, tofz (Z.of_nat (S n)) = 1 + tofz (Z.of_nat n)).
+  Notation count := (cat_count Qc 0 Qcplus).
+  Notation reest := (cat_reest Qc 0 Qcplus Qcmult Qcdiv tofz alpha).
+
+  Lemma count_cons s st x xs d : count (s :: st) (x :: xs) d = (if Z.eqb x d then s else 0) + count st xs d.
+  Proof. reflexivity. Qed.
+  Lemma count_nil_l xs d : count [] xs d = 0.
+  Proof. reflexivity. Qed.
+  Lemma count_nil_r st d : count st [] d = 0.
+  Proof. destruct st; reflexivity. Qed.
+
+  Lemma count_nonneg st : nonneg st -> forall xs d, 0 <= count st xs d.
+  Proof.
+    induction 1 as [|s st Hs Hst IH]; intros xs d; [apply Qcle_refl|].
+    destruct xs as [|x xs]; [rewrite count_nil_r; apply Qcle_refl|].
+    rewrite count_cons. apply plus_nonneg; [|apply IH]. destruct (Z.eqb x d); [exact Hs | apply Qcle_refl].
+  Qed.
+
+  Lemma ind_sum_out s x cats : ~ In x cats -> qsum (map (fun d => if Z.eqb x d then s else 0) cats) = 0.
+  Proof.
+    induction cats as [|d cats IH]; intros H; cbn; [reflexivity|].
+    destruct (Z.eqb_spec x d) as [->|]; [exfalso; apply H; now left|].
+    rewrite IH by (intro; apply H; now right). ring.
+  Qed.
+  Lemma ind_sum_in s x cats : NoDup cats -> In x cats -> qsum (map (fun d => if Z.eqb x d then s else 0) cats) = s.
+  Proof.
+    induction 1 as [|d cats Hnin Hnd IH]; intros Hin; [destruct Hin|]. cbn.
+    destruct (Z.eqb_spec x d) as [->|Hne].
+    - rewrite ind_sum_out by exact Hnin. ring.
+    - destruct Hin as [->|Hin]; [congruence|]. rewrite IH by exact Hin. ring.
+  Qed.
+
+  Lemma count_total cats : NoDup cats -> forall st xs, length xs = length st -> Forall (fun x => In x cats) xs ->
+    qsum (map (count st xs) cats) = qsum st.
+  Proof.
+    intros Hnd. induction st as [|s st IH]; intros xs Hl Hx.
+    - cbn. apply sum_map_zero.
+    - destruct xs as [|x xs]; [cbn in Hl; lia|]. inversion Hx; subst.
+      erewrite map_ext; [|intros d; apply count_cons].
+      rewrite sum_map_add, ind_sum_in by assumption. rewrite IH by (cbn in Hl; auto; lia). reflexivity.
+  Qed.
+
+  Lemma tofz_nat_sum {A} (l : list A) : qsum (map (fun _ => alpha) l) = tofz (Z.of_nat (length l)) * alpha.
+  Proof.
+    induction l as [|d l IH]; [cbn; rewrite Z0; ring|].
+    change (length (d :: l)) with (S (length l)). rewrite ZS. cbn [map Core.sumT]. rewrite IH. ring.
+  Qed.
+  Lemma tofz_nat_nonneg n : 0 <= tofz (Z.of_nat n).
+  Proof.
+    induction n as [|n IH]; [cbn; rewrite Z0; apply Qcle_refl|]. rewrite ZS. revert IH. q_of_qc. intros. lra.
+  Qed.
+
+  Theorem cat_step_simplex cats ps st xs :
+    nonneg ps -> qsum ps = 1 -> length ps = length cats -> nonneg st -> length xs = length st ->
+    NoDup cats -> Forall (fun x => In x cats) xs ->
+    let ps' := zipw (qmix eta) ps (reest st xs cats) in
+    ps' = zipw (fun p e => (1 - eta) * p + eta * e) ps (reest st xs cats) /\
+    nonneg ps' /\ qsum ps' = 1 /\ length ps' = length ps.
+  Proof.
+    intros Hp Hs Hl Hst Hlx Hnd Hx. cbn zeta. split; [reflexivity|].
+    set (den := qsum st + tofz (Z.of_nat (length cats)) * alpha).
+    assert (Hne : cats <> []).
+    { intro E. rewrite E in Hl. destruct ps; [cbn in Hs; discriminate | cbn in Hl; lia]. }
+    assert (Hden : 0 < den).
+    { unfold den. destruct cats as [|d cats']; [congruence|].
+      change (length (d :: cats')) with (S (length cats')). rewrite ZS.
+      pose proof (tofz_nat_nonneg (length cats')) as Hk. pose proof (sum_nonneg st Hst) as Ht.
+      revert Hk Ht Ha. q_of_qc. intros. nra. }
+    assert (Hre : reest st xs cats = map (fun x => x / den) (map (fun d => count st xs d + alpha) cats)).
+    { unfold Em.cat_reest. rewrite map_map. reflexivity. }
+    assert (Hrn : nonneg (reest st xs cats)).
+    { rewrite Hre. apply Forall_map. apply Forall_map. apply Forall_forall. intros d _.
+      apply div_nonneg; [|now apply Qclt_le_weak].
+      apply plus_nonneg; [now apply count_nonneg | now apply Qclt_le_weak]. }
+    assert (Hrs : qsum (reest st xs cats) = 1).
+    { rewrite Hre, sum_map_div, sum_map_add, count_total, tofz_nat_sum by assumption.
+      fold den. unfold Qcdiv. apply Qcmult_inv_r. now apply pos_neq. }
+    assert (Hrl : length (reest st xs cats) = length cats) by (unfold Em.cat_reest; now rewrite map_length).
+    split; [|split].
+    - now apply zipw_mix_nonneg.
+    - rewrite sum_zipw_mix by lia. rewrite Hs, Hrs. ring.
+    - apply zipw_length. lia.
+  Qed.
+End CatStep.
+
+(* ---- BinaryCLT.em_step: every CPT row stays a distribution on {0,1} *)
+Lemma clt_entry_Q (tot Qq C al y : Q) : (0 < al -> 0 <= C -> C <= Qq -> Qq <= tot ->
+  y * (tot + (1 + 1 + (1 + 1)) * al) == Qq + (1 + 1) * al ->
+  0 < tot * y + (1 + 1 + (1 + 1)) * al /\ C + al <= tot * y + (1 + 1 + (1 + 1)) * al)%Q.
+Proof.
+  intros Hal HC HCQ HQt Hy.
+  assert (0 < y)%Q by nra. assert (y <= 1)%Q by nra. split; nra.
+Qed.
+
+Lemma bin_sums (a b : row -> Qc) st : nonneg st -> forall rows,
+  Forall (fun r => (a r = 0 \/ a r = 1) /\ (b r = 0 \/ b r = 1)) rows ->
+  let A := qsum (zipw (fun s r => s * a r) st rows) in
+  let B := qsum (zipw (fun s r => s * b r) st rows) in
+  let AB := qsum (zipw (fun s r => s * a r * b r) st rows) in
+  let S := qsum st in
+  0 <= AB /\ AB <= A /\ AB <= B /\ A + B - AB <= S /\ A <= S /\ B <= S.
+Proof.
+  induction 1 as [|s st Hs Hst IH]; intros rows Hr; cbn zeta.
+  - cbn. repeat split; q_of_qc; lra.
+  - destruct Hr as [|r rows [Har Hbr] Hr].
+    + cbn. pose proof (sum_nonneg st Hst) as Hn. revert Hn Hs. q_of_qc. intros. repeat split; lra.
+    + specialize (IH rows Hr). cbn zeta in IH. cbn [zipw Core.sumT].
+      destruct IH as [I1 [I2 [I3 [I4 [I5 I6]]]]]. revert I1 I2 I3 I4 I5 I6 Hs.
+      destruct Har as [-> | ->]; destruct Hbr as [-> | ->]; q_of_qc; intros; repeat split; lra.
+Qed.
+
 Section CltStep.
   Variables (alpha eta : Qc) (tofz : Z -> Qc).
-  Definition row_norm (r : list Qc) : Prop := exists a b, r = [a; b] /\ a + b = 1.
-  Definition compl_row (r : list Qc) : Prop := exists y, r = [1 - y; y].
+  Hypothesis Ha : 0 < alpha.
+  Hypotheses (H0 : 0 < eta) (H1 : eta < 1).
+  Hypotheses (Z0 : tofz 0%Z = 0) (Z1 : tofz 1%Z = 1).
+  Definition row_norm (r : list Qc) : Prop := exists a b, r = [a; b] /\ a + b = 1 /\ 0 <= a /\ 0 <= b.
+  Definition compl_row (r : list Qc) : Prop := exists y, r = [1 - y; y] /\ 0 <= y /\ y <= 1.
+  Definition clt_wf (c : clt Qc) : Prop :=
+    length (cscope c) = length (cpar c) /\
+    Forall (fun o => match o with Some p => (p < length (cpar c))%nat | None => True end) (cpar c).
   Notation mix_row := (mix_row Qc 0 1 Qcplus Qcmult Qcminus Qcdiv eta).
   Notation creest := (clt_reest Qc 0 1 Qcplus Qcmult Qcminus Qcdiv tofz alpha).
   Notation cstep := (clt_step Qc 0 1 Qcplus Qcmult Qcminus Qcdiv tofz alpha eta).
+  Notation q4 := (t4 Qc 1 Qcplus).
+  Notation q2 := (t2 Qc 1 Qcplus).
 
   Lemma mix_row_norm old new : row_norm old -> compl_row new ->
     row_norm (mix_row old new) /\
     mix_row old new = zipw (fun o e => (1 - eta) * o + eta * e) old new.
   Proof.
-    intros [a [b [-> Hab]]] [y ->]. unfold Em.mix_row. cbn.
+    intros [a [b [-> [Hab [Ha0 Hb0]]]]] [y [-> [Hy0 Hy1]]]. unfold Em.mix_row. cbn.
     assert (Hs : qmix eta a (1 - y) + (qmix eta b y + 0) = 1).
     { unfold mix. replace b with (1 - a) by (rewrite <- Hab; ring). ring. }
     rewrite Hs. assert (D1 : forall x : Qc, x / 1 = x) by (intros x; unfold Qcdiv; replace (/ 1) with 1 by (apply Qc_is_canon; reflexivity); ring). rewrite !D1. split; [|reflexivity].
-    exists (qmix eta a (1 - y)), (qmix eta b y). split; [reflexivity|].
-    etransitivity; [|exact Hs]. ring.
+    exists (qmix eta a (1 - y)), (qmix eta b y). split; [reflexivity|]. split; [|split].
+    - etransitivity; [|exact Hs]. ring.
+    - apply mix_nonneg; auto. revert Hy1. q_of_qc. intros. lra.
+    - apply mix_nonneg; auto.
   Qed.
 
-  Lemma reest_shape c st rows : Forall (fun tbl => length tbl = 2%nat /\ Forall compl_row tbl) (creest c st rows).
+  Lemma entry_ok tot Qq C y : 0 <= C -> C <= Qq -> Qq <= tot -> y * (tot + q4 * alpha) = Qq + q2 * alpha ->
+    compl_row [1 - (C + alpha) / (tot * y + q4 * alpha); (C + alpha) / (tot * y + q4 * alpha)].
   Proof.
-    unfold Em.clt_reest. apply Forall_map. apply Forall_forall. intros i _.
-    destruct (nth i (cpar c) None).
-    - split; [reflexivity|]. repeat constructor; eexists; reflexivity.
-    - split; [reflexivity|]. repeat constructor; eexists; reflexivity.
+    intros HC HCQ HQt Hy. unfold t4, t2 in *.
+    assert (HQ : (0 < this (tot * y + (1 + 1 + (1 + 1)) * alpha) /\
+                 this (C + alpha) <= this (tot * y + (1 + 1 + (1 + 1)) * alpha))%Q).
+    { assert (Hy' : (this (y * (tot + (1 + 1 + (1 + 1)) * alpha)) == this (Qq + (1 + 1) * alpha))%Q) by (now rewrite Hy).
+      revert Ha HC HCQ HQt Hy'. q_of_qc. intros. now apply (clt_entry_Q (this tot) (this Qq)). }
+    destruct HQ as [Hd Hn]. eexists. split; [reflexivity|]. split.
+    - apply div_nonneg; [|now apply Qclt_le_weak]. apply plus_nonneg; [exact HC | now apply Qclt_le_weak].
+    - apply div_le1; assumption.
   Qed.
+
+  Section Reest.
+    Variables (c : clt Qc) (st : list Qc) (rows : list row).
+    Hypothesis Hst : nonneg st.
+    Hypothesis Hwf : clt_wf c.
+    Hypothesis Hbin : Forall (fun r => forall i, (i < length (cscope c))%nat -> cell Qc c r i = 0%Z \/ cell Qc c r i = 1%Z) rows.
+    Definition x_ i r := tofz (cell Qc c r i).
+    Definition tot_ := qsum st.
+    Definition P_ i := qsum (zipw (fun s r => s * x_ i r) st rows).
+    Notation x := x_. Notation tot := tot_. Notation P := P_.
+
+    Lemma xbin i j : (i < length (cpar c))%nat -> (j < length (cpar c))%nat ->
+      Forall (fun r => (x i r = 0 \/ x i r = 1) /\ (x j r = 0 \/ x j r = 1)) rows.
+    Proof.
+      intros Hi Hj. destruct Hwf as [Hl _]. eapply Forall_impl; [|exact Hbin]. intros r Hr. unfold x.
+      split; [destruct (Hr i) as [-> | ->] | destruct (Hr j) as [-> | ->]]; rewrite ?Z0, ?Z1; auto; lia.
+    Qed.
+
+    Lemma pa_lt i : (i < length (cpar c))%nat -> (clt_pa Qc c i < length (cpar c))%nat.
+    Proof.
+      intros Hi. unfold clt_pa. destruct (nth i (cpar c) None) as [p|] eqn:E; [|lia].
+      destruct Hwf as [_ Hf]. rewrite Forall_forall in Hf.
+      assert (Hin : In (Some p) (cpar c)) by (rewrite <- E; now apply nth_In). exact (Hf _ Hin).
+    Qed.
+
+    Lemma prior_eq i : ((P i + q2 * alpha) / (tot + q4 * alpha)) * (tot + q4 * alpha) = P i + q2 * alpha.
+    Proof.
+      apply div_mul. apply pos_neq. pose proof (sum_nonneg st Hst) as Ht. fold tot in Ht.
+      unfold t4, t2. revert Ht Ha. q_of_qc. intros. nra.
+    Qed.
+
+    Lemma reest_shape : Forall (fun tbl => length tbl = 2%nat /\ Forall compl_row tbl) (creest c st rows).
+    Proof.
+      unfold Em.clt_reest. apply Forall_map. apply Forall_forall. intros i Hi. apply in_seq in Hi.
+      assert (Hil : (i < length (cpar c))%nat) by lia.
+      pose proof (pa_lt i Hil) as Hpa.
+      change (fun i0 r => tofz (cell Qc c r i0)) with x. change (qsum st) with tot.
+      destruct (bin_sums (x i) (x (clt_pa Qc c i)) st Hst rows (xbin i _ Hil Hpa)) as [B1 [B2 [B3 [B4 [B5 B6]]]]].
+      fold (P i) in *. fold (P (clt_pa Qc c i)) in *. fold tot in *.
+      set (C1 := qsum (zipw (fun s r => s * x i r * x (clt_pa Qc c i) r) st rows)) in *.
+      destruct (nth i (cpar c) None) as [p|].
+      - split; [reflexivity|]. constructor; [|constructor; [|constructor]].
+        + (* l = false: parent value 0 *)
+          apply (entry_ok tot (tot - P (clt_pa Qc c i)) (P i - C1)).
+          * revert B2. q_of_qc. intros. lra.
+          * revert B4. q_of_qc. intros. lra.
+          * destruct (bin_sums (x (clt_pa Qc c i)) (x (clt_pa Qc c i)) st Hst rows (xbin _ _ Hpa Hpa)) as [E1 [E2 _]].
+            fold (P (clt_pa Qc c i)) in *. assert (0 <= P (clt_pa Qc c i)) by (eapply Qcle_trans; eassumption).
+            revert H. q_of_qc. intros. lra.
+          * pose proof (prior_eq (clt_pa Qc c i)) as Hp. clear - Hp.
+            unfold P_, tot_, x_ in *. cbv beta zeta in *.
+            match type of Hp with ?p * ?D = _ => set (pp := p) in *; set (DD := D) in * end.
+            replace ((1 - pp) * DD) with (DD - pp * DD) by ring. rewrite Hp. unfold DD, t4, t2. ring.
+        + (* l = true: parent value 1 *)
+          apply (entry_ok tot (P (clt_pa Qc c i)) C1); try assumption. apply prior_eq.
+      - split; [reflexivity|].
+        assert (Hc : compl_row [1 - (P i + q2 * alpha) / (tot + q4 * alpha); (P i + q2 * alpha) / (tot + q4 * alpha)]).
+        { eexists. split; [reflexivity|].
+          assert (Hd : 0 < tot + q4 * alpha).
+          { pose proof (sum_nonneg st Hst) as Ht. fold tot in Ht. unfold t4, t2. revert Ht Ha. q_of_qc. intros. nra. }
+          destruct (bin_sums (x i) (x i) st Hst rows (xbin _ _ Hil Hil)) as [E1 [E2 _]]. fold (P i) in *.
+          assert (HP0 : 0 <= P i) by (eapply Qcle_trans; eassumption).
+          split.
+          - apply div_nonneg; [|now apply Qclt_le_weak]. unfold t2. revert HP0 Ha. q_of_qc. intros. nra.
+          - apply div_le1; [exact Hd|]. unfold t4, t2. revert B5 Ha. q_of_qc. intros. nra. }
+        constructor; [exact Hc | constructor; [exact Hc | constructor]].
+    Qed.
+  End Reest.
 
   Lemma zipw_rows old new : Forall row_norm old -> Forall compl_row new ->
     Forall row_norm (zipw mix_row old new).
@@ -265,12 +472,14 @@ Section CltStep.
   Qed.
 
   Theorem clt_step_rows_normalised c st rows :
+    nonneg st -> clt_wf c ->
+    Forall (fun r => forall i, (i < length (cscope c))%nat -> cell Qc c r i = 0%Z \/ cell Qc c r i = 1%Z) rows ->
     Forall (Forall row_norm) (cparams c) ->
     Forall (Forall row_norm) (cparams (cstep c st rows)) /\
     cscope (cstep c st rows) = cscope c /\ cpar (cstep c st rows) = cpar c.
   Proof.
-    intros Hc. split; [|split; reflexivity]. unfold Em.clt_step. cbn [cparams].
-    pose proof (reest_shape c st rows) as Hr. revert Hr. generalize (creest c st rows) as R.
+    intros Hst Hwf Hbin Hc. split; [|split; reflexivity]. unfold Em.clt_step. cbn [cparams].
+    pose proof (reest_shape c st rows Hst Hwf Hbin) as Hr. revert Hr. generalize (creest c st rows) as R.
     induction Hc as [|tbl ts Ht Hts IH]; intros R HR; [constructor|].
     destruct HR as [|r R [_ Hr] HR]; cbn; constructor; [now apply zipw_rows | now apply IH].
   Qed.
@@ -282,78 +491,227 @@ Section Iter.
   Variable xval : nat -> Z -> Qc.
   Variable gdens : Qc -> Qc -> nat -> Z -> Qc.
   Hypotheses (Heps : 0 < eps) (Ha : 0 < alpha) (Hf : 0 < floor) (H0 : 0 < eta) (H1 : eta < 1).
-  Hypotheses (Z0 : tofz 0%Z = 0) (Z1 : tofz 1%Z = 1).
-  Variable bvars : list nat.     (* the variables carried by Bernoulli leaves *)
+  Hypotheses (Z0 : tofz 0%Z = 0) (Z1 : tofz 1%Z = 1)
+             (ZS : forall n, tofz (Z.of_nat (S n)) = 1 + tofz (Z.of_nat n)).
+  Hypothesis Hg : forall m sd v c, 0 <= gdens m sd v c.
   Notation qem_iter := (em_iter Qc 0 1 Qcplus Qcmult Qcminus Qcdiv qleb' tsqrt tofz eps alpha floor xval gdens eta).
   Notation qem_iters := (em_iters Qc 0 1 Qcplus Qcmult Qcminus Qcdiv qleb' tsqrt tofz eps alpha floor xval gdens eta).
   Notation qem_node := (em_node Qc 0 1 Qcplus Qcmult Qcminus Qcdiv qleb' tsqrt tofz eps alpha floor xval eta).
   Notation mk := (mk_rinfo Qc 0 1 Qcplus Qcmult Qcminus Qcdiv gdens).
+  Notation qvals := (evals Qc 0 1 Qcplus Qcmult Qcminus gdens).
+  Notation qlv := (eleaf_val Qc 0 1 Qcplus Qcmult Qcminus gdens).
+  Notation qbwd := (bwd Qc 0 Qcplus Qcmult Qcdiv).
+  Notation qprod := (prodT Qc 1 Qcmult).
 
-  (* parameter validity of one node (Categorical leaves and the sign of CLT entries: see notes) *)
+  (* parameter validity *)
+  Definition leaf_inv (l : eleaf Qc) : Prop :=
+    match l with
+    | EBern _ p => 0 <= p /\ p <= 1
+    | ECat _ cats ps => nonneg ps /\ qsum ps = 1 /\ length ps = length cats /\ NoDup cats
+    | EGauss _ _ sd => 0 < sd
+    | EClt c => clt_wf c /\ Forall (Forall row_norm) (cparams c)
+    end.
   Definition node_inv (n : enode Qc) : Prop :=
     match nkind n with
     | KSum ws => nonneg ws /\ qsum ws = 1 /\ length ws = length (nkids n)
     | KProd => True
-    | KLeaf (EBern v p) => In v bvars /\ 0 <= p /\ p <= 1
-    | KLeaf (ECat _ _ _) => True
-    | KLeaf (EGauss _ _ sd) => 0 < sd
-    | KLeaf (EClt c) => Forall (Forall row_norm) (cparams c)
+    | KLeaf l => leaf_inv l
     end.
+  (* a data row fits a node: Bernoulli / CLT cells are 0 or 1 (and present), Categorical cells are categories *)
+  Definition leaf_row_ok (l : eleaf Qc) (r : row) : Prop :=
+    match l with
+    | EBern v _ => cellz r v = 0%Z \/ cellz r v = 1%Z
+    | ECat v cats _ => In (cellz r v) cats
+    | EGauss _ _ _ => True
+    | EClt c => complete_on (cscope c) r = true /\
+                forall i, (i < length (cscope c))%nat -> cell Qc c r i = 0%Z \/ cell Qc c r i = 1%Z
+    end.
+  Definition row_ok (n : enode Qc) (r : row) : Prop :=
+    match nkind n with KLeaf l => leaf_row_ok l r | _ => True end.
   Definition ri_ok (ri : rinfo Qc) : Prop :=
-    nonneg (ri_vs Qc ri) /\ nonneg (ri_gs Qc ri) /\ 0 <= ri_root Qc ri /\
-    forall v, In v bvars -> cellz (ri_row Qc ri) v = 0%Z \/ cellz (ri_row Qc ri) v = 1%Z.
+    nonneg (ri_vs Qc ri) /\ nonneg (ri_gs Qc ri) /\ 0 <= ri_root Qc ri.
 
   Lemma nth_nonneg l i : nonneg l -> 0 <= nth i l 0.
   Proof. intros H. revert i. induction H; intros [|i]; cbn; auto; apply Qcle_refl. Qed.
-
-  Lemma em_node_inv ris i n : Forall ri_ok ris -> node_inv n -> node_inv (qem_node ris i n).
+  Lemma dot_nonneg ws : nonneg ws -> forall xs, nonneg xs -> 0 <= qdot ws xs.
   Proof.
-    intros Hr. unfold node_inv, Em.em_node. destruct n as [k sc ks]; cbn.
+    induction 1 as [|w ws Hw Hws IH]; intros xs Hx; [apply Qcle_refl|].
+    destruct Hx as [|x xs Hx0 Hx]; cbn; [apply Qcle_refl|].
+    apply plus_nonneg; [now apply mult_nonneg | now apply IH].
+  Qed.
+  Lemma prod_nonneg l : nonneg l -> 0 <= qprod l.
+  Proof.
+    induction 1; cbn; [|now apply mult_nonneg].
+    q_of_qc. lra.
+  Qed.
+  Lemma map_nth_nonneg vs ks : nonneg vs -> nonneg (map (fun k => nth k vs 0) ks).
+  Proof. intros H. apply Forall_map. apply Forall_forall. intros k _. now apply nth_nonneg. Qed.
+  Lemma one_nonneg : 0 <= 1.
+  Proof. q_of_qc. lra. Qed.
+
+  Lemma lookup_nonneg cats : forall ps x, nonneg ps -> 0 <= lookup Qc 0 (combine cats ps) x.
+  Proof.
+    induction cats as [|c cats IH]; intros ps x Hp; [apply Qcle_refl|].
+    destruct Hp as [|p ps Hp0 Hp]; cbn; [apply Qcle_refl|].
+    destruct (Z.eqb c x); [exact Hp0 | now apply IH].
+  Qed.
+  Lemma row_nth_nonneg rw b : row_norm rw \/ rw = [] -> 0 <= nth b rw 0.
+  Proof.
+    intros [[a [c [-> [_ [Ha0 Hc0]]]]] | ->]; [|destruct b; apply Qcle_refl].
+    destruct b as [|[|[|b]]]; cbn; auto; apply Qcle_refl.
+  Qed.
+  Lemma cpt_nonneg ps i a b : Forall (Forall row_norm) ps -> 0 <= nth b (nth a (nth i ps []) []) 0.
+  Proof.
+    intros H. apply row_nth_nonneg.
+    assert (Ht : Forall row_norm (nth i ps [])).
+    { destruct (Nat.lt_ge_cases i (length ps)) as [Hi|Hi].
+      - rewrite Forall_forall in H. apply H. now apply nth_In.
+      - rewrite nth_overflow by exact Hi. constructor. }
+    destruct (Nat.lt_ge_cases a (length (nth i ps []))) as [Hi|Hi].
+    - left. rewrite Forall_forall in Ht. apply Ht. now apply nth_In.
+    - right. now apply nth_overflow.
+  Qed.
+
+  Lemma leaf_val_nonneg l r : leaf_inv l -> leaf_row_ok l r -> 0 <= qlv l r.
+  Proof.
+    destruct l as [v p|v cats ps|v m sd|c]; cbn.
+    - intros [Hp0 Hp1] _. destruct (r v) as [x|]; [|apply one_nonneg].
+      unfold bern_val. destruct (Z.eqb x 1); [exact Hp0|]. destruct (Z.eqb x 0); [|apply Qcle_refl].
+      revert Hp1. q_of_qc. intros. lra.
+    - intros [Hp _] _. destruct (r v) as [x|]; [|apply one_nonneg]. now apply lookup_nonneg.
+    - intros _ _. destruct (r v) as [x|]; [|apply one_nonneg]. apply Hg.
+    - intros [_ Hc] [Hcomp _]. unfold clt_lik. rewrite Hcomp. unfold clt_gather.
+      apply prod_nonneg. apply Forall_map. apply Forall_forall. intros i _.
+      unfold cpt_fn. match goal with |- context [if ?b then _ else _] => destruct b end; [|apply Qcle_refl].
+      now apply cpt_nonneg.
+  Qed.
+
+  Lemma vals_nonneg t r : Forall node_inv t -> Forall (fun n => row_ok n r) t -> nonneg (qvals t r).
+  Proof.
+    unfold Em.evals. induction t as [|n t IH] using rev_ind; intros Hi Hr; [constructor|].
+    apply Forall_app in Hi. destruct Hi as [Hi Hn]. apply Forall_app in Hr. destruct Hr as [Hr Hrn].
+    inversion Hn as [|? ? Hn' _]; subst. inversion Hrn as [|? ? Hrn' _]; subst.
+    rewrite (vals_snoc Qc 0 1 Qcplus Qcmult (eleaf Qc) qlv). apply Forall_app. split; [now apply IH|].
+    constructor; [|constructor]. specialize (IH Hi Hr).
+    unfold Core.node_val. unfold node_inv in Hn'. unfold row_ok in Hrn'.
+    destruct (nkind n) as [l|ws|].
+    - now apply leaf_val_nonneg.
+    - destruct Hn' as [Hw _]. apply dot_nonneg; [exact Hw | now apply map_nth_nonneg].
+    - apply prod_nonneg. now apply map_nth_nonneg.
+  Qed.
+
+  Lemma add_at_nonneg k x l : 0 <= x -> nonneg l -> nonneg (add_at Qc Qcplus k x l).
+  Proof.
+    intros Hx H. revert k. induction H as [|y l Hy Hl IH]; intros k.
+    - destruct k; constructor.
+    - destruct k as [|k]; cbn.
+      + constructor; [now apply plus_nonneg | exact Hl].
+      + constructor; [exact Hy | apply IH].
+  Qed.
+  Lemma push_nonneg g es : 0 <= g -> Forall (fun e : nat * Qc => 0 <= snd e) es ->
+    forall acc, nonneg acc -> nonneg (push Qc Qcplus Qcmult g acc es).
+  Proof.
+    intros Hgp. induction 1 as [|e es He Hes IH]; intros acc Hacc; cbn; [exact Hacc|].
+    unfold Em.push in IH. apply IH. apply add_at_nonneg; [now apply mult_nonneg | exact Hacc].
+  Qed.
+  Lemma edges_nonneg n vs vn : node_inv n -> nonneg vs -> 0 <= vn ->
+    Forall (fun e : nat * Qc => 0 <= snd e) (edges Qc 0 Qcdiv n vs vn).
+  Proof.
+    intros Hn Hvs Hvn. unfold Em.edges. unfold node_inv in Hn. destruct (nkind n) as [l|ws|]; [constructor| |].
+    - destruct Hn as [Hw _]. apply Forall_forall. intros [k w] Hin. apply in_combine_r in Hin.
+      unfold nonneg in Hw. rewrite Forall_forall in Hw. cbn. now apply Hw.
+    - apply Forall_map. apply Forall_forall. intros k _. cbn.
+      apply div_nonneg; [exact Hvn | now apply nth_nonneg].
+  Qed.
+  Lemma bwd_nonneg rt vs : Forall node_inv rt -> nonneg vs -> forall acc, nonneg acc -> nonneg (qbwd rt vs acc).
+  Proof.
+    intros Hrt Hvs. induction Hrt as [|n rt Hn Hrt IH]; intros acc Hacc; [exact Hacc|].
+    cbn [Em.bwd]. apply IH. apply push_nonneg; [now apply nth_nonneg | | exact Hacc].
+    apply edges_nonneg; [exact Hn | exact Hvs | now apply nth_nonneg].
+  Qed.
+
+  Lemma ri_ok_mk t r : Forall node_inv t -> Forall (fun n => row_ok n r) t -> ri_ok (mk t r).
+  Proof.
+    intros Hi Hr. pose proof (vals_nonneg t r Hi Hr) as Hv. unfold ri_ok, Em.mk_rinfo. cbn.
+    split; [exact Hv|]. split; [|now apply nth_nonneg].
+    unfold Em.grads. apply bwd_nonneg; [now apply Forall_rev | exact Hv |].
+    unfold Em.seed. apply Forall_app. split; [|constructor; [apply one_nonneg | constructor]].
+    apply Forall_forall. intros x Hx. apply repeat_spec in Hx. subst. apply Qcle_refl.
+  Qed.
+
+  Lemma em_node_inv ris i n : Forall ri_ok ris -> Forall (fun ri => row_ok n (ri_row Qc ri)) ris ->
+    node_inv n -> node_inv (qem_node ris i n).
+  Proof.
+    intros Hr Hd. unfold node_inv, row_ok, Em.em_node in *. destruct n as [k sc ks]; cbn in *.
     destruct k as [l|ws|]; cbn; [| |auto].
-    - destruct l as [v p|v cats ps|v m sd|c]; cbn; auto.
-      + intros [Hv [Hp0 Hp1]]. split; [exact Hv|].
-        assert (Hst : nonneg (map (leaf_stat Qc 0 Qcmult Qcdiv i) ris)).
-        { apply Forall_map. eapply Forall_impl; [|exact Hr]. intros ri [Hvs [Hgs [Hrt _]]].
-          unfold leaf_stat. apply div_nonneg; [apply mult_nonneg; now apply nth_nonneg | exact Hrt]. }
+    - assert (Hst : nonneg (map (leaf_stat Qc 0 Qcmult Qcdiv i) ris)).
+      { apply Forall_map. eapply Forall_impl; [|exact Hr]. intros ri [Hvs [Hgs Hrt]].
+        unfold leaf_stat. apply div_nonneg; [apply mult_nonneg; now apply nth_nonneg | exact Hrt]. }
+      destruct l as [v p|v cats ps|v m sd|c]; cbn in *.
+      + intros [Hp0 Hp1].
         assert (Hxs : Forall (fun x => x = 0%Z \/ x = 1%Z) (map (fun r => cellz r v) (map (ri_row Qc) ris))).
-        { rewrite map_map. apply Forall_map. eapply Forall_impl; [|exact Hr]. intros ri [_ [_ [_ Hd]]]. now apply Hd. }
+        { rewrite map_map. apply Forall_map. exact Hd. }
         destruct (bern_step_domain alpha eta tofz Ha H0 H1 Z0 Z1 p _ _ Hp0 Hp1 Hst Hxs) as [_ [B0 B1]].
         split; apply Qclt_le_weak; assumption.
+      + intros [Hp [Hs [Hl Hnd]]].
+        assert (Hxs : Forall (fun x => In x cats) (map (fun r => cellz r v) (map (ri_row Qc) ris))).
+        { rewrite map_map. apply Forall_map. exact Hd. }
+        assert (Hlen : length (map (fun r => cellz r v) (map (ri_row Qc) ris)) =
+                       length (map (leaf_stat Qc 0 Qcmult Qcdiv i) ris)) by (rewrite !map_length; reflexivity).
+        destruct (cat_step_simplex alpha eta tofz Ha H0 H1 Z0 ZS cats ps
+                    (map (leaf_stat Qc 0 Qcmult Qcdiv i) ris) (map (fun r => cellz r v) (map (ri_row Qc) ris))
+                    Hp Hs Hl Hst Hlen Hnd Hxs) as [_ [C1 [C2 C3]]].
+        repeat split; [exact C1 | exact C2 | now rewrite C3 | exact Hnd].
       + intros Hsd.
         exact (proj2 (proj2 (proj2 (gauss_step_sigma_pos eps floor eta tsqrt Hf H0 H1 m sd _ _ Hsd)))).
-      + intros Hc. exact (proj1 (clt_step_rows_normalised alpha eta tofz c _ _ Hc)).
+      + intros [Hwf Hc].
+        assert (Hb : Forall (fun r => forall i0, (i0 < length (cscope c))%nat ->
+                        cell Qc c r i0 = 0%Z \/ cell Qc c r i0 = 1%Z) (map (ri_row Qc) ris)).
+        { apply Forall_map. eapply Forall_impl; [|exact Hd]. intros ri [_ Hb]. exact Hb. }
+        split; [exact Hwf|].
+        exact (proj1 (clt_step_rows_normalised alpha eta tofz Ha H0 H1 Z0 Z1 c _ _ Hst Hwf Hb Hc)).
     - intros [Hw [Hs Hl]].
       assert (Hss : nonneg (map (fun k => qsum (map (edge_stat Qc 0 Qcmult Qcdiv i k) ris)) ks)).
       { apply Forall_map. apply Forall_forall. intros k _. apply sum_nonneg. apply Forall_map.
-        eapply Forall_impl; [|exact Hr]. intros ri [Hvs [Hgs [Hrt _]]].
+        eapply Forall_impl; [|exact Hr]. intros ri [Hvs [Hgs Hrt]].
         unfold edge_stat. apply div_nonneg; [apply mult_nonneg; now apply nth_nonneg | exact Hrt]. }
       destruct (sum_step_simplex eps eta Heps H0 H1 ws _ Hw Hs Hss) as [_ [S1 [S2 S3]]].
       { now rewrite map_length. }
       repeat split; [exact S1 | exact S2 | now rewrite S3].
   Qed.
 
-  Lemma em_iter_inv t b : Forall ri_ok (map (mk t) b) -> Forall node_inv t -> Forall node_inv (qem_iter t b).
+  Lemma em_node_row_ok ris i n r : row_ok n r -> row_ok (qem_node ris i n) r.
   Proof.
-    intros Hr Ht. unfold Em.em_iter. apply Forall_map. apply Forall_forall. intros [i n] Hin.
-    cbn. apply em_node_inv; [exact Hr|]. apply in_combine_r in Hin. rewrite Forall_forall in Ht. now apply Ht.
+    unfold row_ok, Em.em_node. destruct n as [k sc ks]; cbn. destruct k as [l|ws|]; cbn; auto.
+    destruct l; cbn; auto.
   Qed.
 
-  (* the condition required of every iteration: the forward values, backward values and root value of
-     the CURRENT state on the sampled batch are non-negative, Bernoulli cells are 0/1 *)
-  Fixpoint steps_ok (t : etable Qc) (bs : list (list row)) : Prop :=
-    match bs with
-    | [] => True
-    | b :: bs' => Forall ri_ok (map (mk t) b) /\ steps_ok (qem_iter t b) bs'
-    end.
+  Definition data_ok (t : etable Qc) (b : list row) : Prop := Forall (fun r => Forall (fun n => row_ok n r) t) b.
 
-  Theorem em_iters_inv bs : forall t, Forall node_inv t -> steps_ok t bs -> Forall node_inv (qem_iters t bs).
+  Lemma em_iter_inv t b : data_ok t b -> Forall node_inv t -> Forall node_inv (qem_iter t b).
   Proof.
-    induction bs as [|b bs IH]; intros t Ht Hs; [exact Ht|].
-    destruct Hs as [Hb Hs]. unfold Em.em_iters. cbn. apply IH; [now apply em_iter_inv | exact Hs].
+    intros Hd Ht. unfold Em.em_iter. apply Forall_map. apply Forall_forall. intros [i n] Hin. cbn.
+    apply in_combine_r in Hin. apply em_node_inv.
+    - apply Forall_map. eapply Forall_impl; [|exact Hd]. intros r Hr. now apply ri_ok_mk.
+    - apply Forall_map. eapply Forall_impl; [|exact Hd]. intros r Hr. cbn.
+      rewrite Forall_forall in Hr. now apply Hr.
+    - rewrite Forall_forall in Ht. now apply Ht.
+  Qed.
+  Lemma em_iter_data_ok t b b' : data_ok t b' -> data_ok (qem_iter t b) b'.
+  Proof.
+    intros Hd. eapply Forall_impl; [|exact Hd]. intros r Hr. unfold Em.em_iter.
+    apply Forall_map. apply Forall_forall. intros [i n] Hin. cbn. apply in_combine_r in Hin.
+    apply em_node_row_ok. rewrite Forall_forall in Hr. now apply Hr.
+  Qed.
+
+  Theorem em_iters_inv bs : forall t, Forall node_inv t -> Forall (data_ok t) bs -> Forall node_inv (qem_iters t bs).
+  Proof.
+    induction bs as [|b bs IH]; intros t Ht Hd; [exact Ht|].
+    inversion Hd as [|? ? Hb Hbs]; subst. unfold Em.em_iters. cbn. apply IH; [now apply em_iter_inv|].
+    eapply Forall_impl; [|exact Hbs]. intros b'. apply em_iter_data_ok.
   Qed.
 End Iter.
 
-(* the hypotheses are satisfiable: a two-component mixture, one batch of two rows *)
 Example em_example :
   let t : etable Qc := [ {| nkind := KLeaf (EBern 0 (Q2Qc (1#4))); nscope := [0%nat]; nkids := [] |};
                           {| nkind := KLeaf (EBern 0 (Q2Qc (3#4))); nscope := [0%nat]; nkids := [] |};
@@ -375,3 +733,30 @@ Qed.
 Theorem resp_root_one ws vs : qdot ws vs <> 0 ->
   qdot ws (map (fun v => v * 1 / qdot ws vs) vs) = 1.
 Proof. intros H. rewrite resp_sum. field. exact H. Qed.
+
+(* the division hypothesis of Proofs/EmGrad.v holds in Qc *)
+Lemma Qc_div_cancel : forall a b : Qc, b <> 0 -> (a * b) / b = a.
+Proof. intros. field. assumption. Qed.
+
+(* the hypotheses of em_iters_inv are satisfiable: the table and batch of em_example *)
+Example em_example_hyps :
+  let t : etable Qc := [ {| nkind := KLeaf (EBern 0 (Q2Qc (1#4))); nscope := [0%nat]; nkids := [] |};
+                          {| nkind := KLeaf (EBern 0 (Q2Qc (3#4))); nscope := [0%nat]; nkids := [] |};
+                          {| nkind := KSum [Q2Qc (1#2); Q2Qc (1#2)]; nscope := [0%nat]; nkids := [0%nat; 1%nat] |} ] in
+  let b : list row := [fun _ => Some 1%Z; fun _ => Some 0%Z] in
+  Forall node_inv t /\ Forall (data_ok t) [b].
+Proof.
+  cbn zeta.
+  assert (L : forall a b : Q, Qle_bool a b = true -> Q2Qc a <= Q2Qc b).
+  { intros a b H. unfold Qcle. cbn. rewrite !Qred_correct. now apply Qle_bool_iff. }
+  split.
+  - constructor; [|constructor; [|constructor; [|constructor]]].
+    + split; apply L; reflexivity.
+    + split; apply L; reflexivity.
+    + split; [|split; [|reflexivity]].
+      * constructor; [apply L; reflexivity | constructor; [apply L; reflexivity | constructor]].
+      * apply Qc_is_canon. reflexivity.
+  - constructor; [|constructor]. constructor; [|constructor; [|constructor]].
+    + constructor; [right; reflexivity | constructor; [right; reflexivity | constructor; [exact I | constructor]]].
+    + constructor; [left; reflexivity | constructor; [left; reflexivity | constructor; [exact I | constructor]]].
+Qed.
